@@ -200,6 +200,9 @@ def static_size(t, mode):
 
 
 # ------------------------------------------------------------------------------------------ rendering
+SPELLINGS = {"uint32": "unsigned int", "uint16": "unsigned short", "uint64": "unsigned long long", "int8": "signed char", "int16": "short"}
+
+
 class Renderer:
     """Abstract type -> definition text.  Named enums/structs become top-level definitions in dependency order;
     fields flagged `anon` are rendered inline as anonymous members."""
@@ -250,7 +253,7 @@ class Renderer:
                 return
             self.done.add(t["name"])
             body = ", ".join(f"{m['name']} = {unpint(m['value'])}" for m in t["members"])
-            self.defs.append((t["name"], f"{'flag' if t['flag'] else 'enum'} {t['name']} : {t['base']['name']} {{ {body} }};"))
+            self.defs.append((t["name"], f"{'flag' if t['flag'] else 'enum'} {t['name']} : {t.get('spelling') or t['base']['name']} {{ {body} }};"))
         elif k in ("struct", "union"):
             if t["name"] in self.done:
                 return
@@ -476,7 +479,10 @@ class Gen:
         if flag and INTS[base][1]:
             base = "u" + base  # flags over signed bases with negative values are finding F19; exercised by C12
         vals = [("A", 1), ("B", 2), ("C", 8)] if flag else [("A", 1), ("B", 2), ("C", 8), ("D", 9)]
-        return t_enum(self.fresh("E"), base, vals, flag)
+        t = t_enum(self.fresh("E"), base, vals, flag)
+        if base in SPELLINGS and rnd.random() < 0.3:
+            t["spelling"] = SPELLINGS[base]      # the base type written as a C type name of several words
+        return t
 
     def scalar(self):
         rnd, cfg = self.rnd, self.cfg
